@@ -155,9 +155,14 @@ func genEnc(t *rapid.T) EncCase {
 		c.Kind = "sct"
 		s := genSCT(t, "sct")
 		c.SCT = &s
-	case k < 72:
+	case k < 76:
 		c.Kind = "sth"
-		c.STH = &STHSpec{Version: genEnum8(t, "sthver", 7), Timestamp: genU64(t, "sthts"), TreeSize: genU64(t, "sthsize"), Root: rapid.Uint32().Draw(t, "root")}
+		c.STH = &STHSpec{Version: genEnum8(t, "sthver", 7), Timestamp: genU64(t, "sthts"), TreeSize: genU64(t, "sthsize"), Root: rapid.Uint32().Draw(t, "root"), RootKind: pick(t, "rootkind", 4)}
+		if pick(t, "sth-edge", 2) == 1 { // the corners: empty / one-entry tree x special root values x timestamp 0 / max
+			c.STH.TreeSize = uint64(pick(t, "sth-size01", 2))
+			c.STH.Timestamp = pickFrom(t, "sth-ts", []uint64{0, 1<<64 - 1, 1, c.STH.Timestamp})
+			c.STH.RootKind = pickFrom(t, "sth-root", []int{1, 2, 0, 3})
+		}
 	default:
 		c.Kind = "sctlist"
 		c.Typed = pick(t, "typed", 2) == 1
@@ -536,8 +541,15 @@ func encSCT(v *harness.Verdict, c EncCase, note func(int)) {
 
 func encSTH(v *harness.Verdict, c EncCase) {
 	s := *c.STH
-	root := hash32(s.Root)
-	v.NonTrivial = s.Version != 0 || s.Timestamp >= 1<<32 || s.TreeSize >= 1<<32
+	root := s.root()
+	v.NonTrivial = s.Version != 0 || s.Timestamp >= 1<<32 || s.TreeSize >= 1<<32 || s.TreeSize <= 1 || s.RootKind != 0
+	v.Class(fmt.Sprintf("sth:root=%s", []string{"random", "all-zero", "empty-tree-hash", "all-ff"}[s.RootKind&3]))
+	if s.TreeSize <= 1 {
+		v.Class(fmt.Sprintf("sth:tree_size=%d", s.TreeSize))
+		if s.RootKind == 1 || s.RootKind == 2 {
+			v.Class(fmt.Sprintf("sth:tree_size=%d,root=%s", s.TreeSize, []string{"", "all-zero", "empty-tree-hash"}[s.RootKind]))
+		}
+	}
 	if s.Version != 0 {
 		v.Class("sth:version!=0")
 	}
